@@ -488,20 +488,21 @@ theorem decode_canonical (f : Fmt) (bits : Nat) :
   have h1 := Nat.div_add_mod bits (2^f.mbits)
   have h2 := Nat.mod_lt bits hM
   unfold decode
-  simp only
+  simp only [Nat.pow_succ]
+  generalize bits / 2^f.mbits = e at *
+  generalize bits % 2^f.mbits = fr at *
+  generalize 2^f.mbits = M at *
   split
   · rename_i he
-    rw [he] at h1
-    simp only [Nat.pow_succ]
-    refine ⟨by omega, by omega, Or.inl rfl, ?_, by omega⟩
-    simp only [Int.sub_self, Int.toNat_zero, Nat.zero_mul]; omega
+    subst he
+    simp only [Int.sub_self, Int.toNat_zero, Nat.zero_mul]
+    refine ⟨by omega, by omega, Or.inl trivial, by omega, by omega⟩
   · rename_i he
-    obtain ⟨e', he'⟩ : ∃ e', bits / 2^f.mbits = e' + 1 := ⟨bits / 2^f.mbits - 1, by omega⟩
-    rw [he'] at h1 ⊢
+    obtain ⟨e', rfl⟩ : ∃ e', e = e' + 1 := ⟨e - 1, by omega⟩
     have : (f.kmin + ((e' + 1 : Nat) : Int) - 1 - f.kmin).toNat = e' := by omega
-    simp only [this, Nat.pow_succ]
+    simp only [this]
     rw [Nat.mul_add] at h1
-    rw [Nat.mul_comm e'] 
+    rw [Nat.mul_comm e']
     refine ⟨by omega, by omega, Or.inr (by omega), by omega, by omega⟩
 
 /-- (5) `rne` and `rneTrunc` are the identity on finite floats. -/
@@ -519,5 +520,802 @@ theorem rne_decode (f : Fmt) {bits : Nat} (hb : bits < f.infBits) :
     constructor
     · rw [rne_eq_min f hn]; unfold bitsU; rw [d2, d1, c4]; omega
     · rw [rneTrunc_of_num_ne f hn, d3, d1, c4]; omega
+
+/-! ### Decimal values: `ofDec`, `ofDigits`, `digitsValue` -/
+
+theorem ofDec_den_pos (d : Nat) (e : Int) : 0 < (ofDec d e).den := by
+  unfold ofDec
+  split
+  · exact Nat.one_pos
+  · exact Nat.pow_pos (by decide)
+
+theorem ofDec_toRat (d : Nat) (e : Int) : (ofDec d e).toRat = (d:ℚ) * (10:ℚ)^e := by
+  unfold ofDec Q.toRat
+  split
+  · rename_i h
+    obtain ⟨n, rfl⟩ := Int.eq_ofNat_of_zero_le h
+    simp
+  · rename_i h
+    obtain ⟨n, hn⟩ := Int.eq_ofNat_of_zero_le (show 0 ≤ -e by omega)
+    have he : e = -(n:ℤ) := by omega
+    subst he
+    simp [div_eq_mul_inv]
+
+theorem digitsValue_den_pos (int frac : List UInt8) (e : Int) : 0 < (digitsValue int frac e).den :=
+  ofDec_den_pos _ _
+
+theorem digitsValue_toRat (int frac : List UInt8) (e : Int) :
+    (digitsValue int frac e).toRat
+      = (ofDigits (int ++ frac) : ℚ) * (10:ℚ)^(e - (frac.length : Int)) :=
+  ofDec_toRat _ _
+
+theorem ofDigits_foldl (acc : Nat) (b : List UInt8) :
+    b.foldl (fun acc c => acc * 10 + digitVal c) acc = acc * 10^b.length + ofDigits b := by
+  unfold ofDigits
+  induction b generalizing acc with
+  | nil => simp
+  | cons c cs ih =>
+    simp only [List.foldl_cons, List.length_cons]
+    rw [ih, ih (0 * 10 + digitVal c), Nat.pow_succ]
+    ring
+
+theorem ofDigits_append (a b : List UInt8) :
+    ofDigits (a ++ b) = ofDigits a * 10^b.length + ofDigits b := by
+  show List.foldl _ 0 (a ++ b) = _
+  rw [List.foldl_append, ofDigits_foldl]
+  rfl
+
+theorem ofDigits_nil : ofDigits [] = 0 := rfl
+
+theorem ofDigits_singleton (c : UInt8) : ofDigits [c] = digitVal c := by
+  simp [ofDigits]
+
+/-- `d·10 × 10^(j-1)` and `d × 10^j` are the same value. -/
+theorem ofDec_shift (d : Nat) (j : Int) : Q.eqv (ofDec (d * 10) (j - 1)) (ofDec d j) := by
+  rw [Q.eqv_iff (ofDec_den_pos _ _) (ofDec_den_pos _ _), ofDec_toRat, ofDec_toRat,
+    zpow_sub_one₀ (by norm_num)]
+  push_cast
+  field_simp
+
+/-- (8a) A trailing fraction zero does not change the value. -/
+theorem digitsValue_append_zero (int frac : List UInt8) (e : Int) :
+    Q.eqv (digitsValue int (frac ++ [48]) e) (digitsValue int frac e) := by
+  unfold digitsValue
+  rw [← List.append_assoc, ofDigits_append (int ++ frac) [48]]
+  have h1 : ofDigits [48] = 0 := by decide
+  have h2 : (e - ((frac ++ [48]).length : Int)) = (e - (frac.length : Int)) - 1 := by
+    simp only [List.length_append, List.length_cons, List.length_nil]; omega
+  rw [h1, h2]
+  simp only [List.length_cons, List.length_nil, Nat.zero_add, Nat.pow_one, Nat.add_zero]
+  exact ofDec_shift _ _
+
+/-- (8b) Moving the decimal point one place to the left while incrementing the exponent. -/
+theorem digitsValue_shift_point (int frac : List UInt8) (c : UInt8) (e : Int) :
+    digitsValue (int ++ [c]) frac e = digitsValue int (c :: frac) (e + 1) := by
+  unfold digitsValue
+  have h2 : (e + 1 - ((c :: frac).length : Int)) = (e - (frac.length : Int)) := by
+    simp only [List.length_cons]; omega
+  rw [h2, List.append_assoc, List.singleton_append]
+
+theorem Q.eqv_refl (a : Q) : Q.eqv a a := by unfold Q.eqv; rfl
+
+/-! ### Exact characterisation of `rhe` around the midpoint -/
+
+theorem rhe_cases (A : Nat) {B : Nat} (hB : 0 < B) :
+    (2*A < (2*(A/B)+1)*B → rhe A B = A/B) ∧
+    ((2*(A/B)+1)*B < 2*A → rhe A B = A/B + 1) ∧
+    (2*A = (2*(A/B)+1)*B → rhe A B = if (A/B) % 2 = 0 then A/B else A/B + 1) := by
+  have h1 := Nat.div_add_mod A B
+  have h2 := Nat.mod_lt A hB
+  have e : (2*(A/B)+1)*B = 2*(B*(A/B)) + B := by ring
+  rw [e]
+  unfold rhe
+  simp only
+  generalize A / B = q at *
+  generalize A % B = r at *
+  generalize B * q = t at *
+  refine ⟨fun h => ?_, fun h => ?_, fun h => ?_⟩
+  · rw [if_neg (by omega)]
+  · rw [if_pos (by omega)]
+  · split <;> split <;> omega
+
+theorem rhe_eq_zero_iff (A : Nat) {B : Nat} (hB : 0 < B) : rhe A B = 0 ↔ 2*A ≤ B := by
+  have h1 := Nat.div_add_mod A B
+  have h2 := Nat.mod_lt A hB
+  constructor
+  · intro h
+    have hq : A / B = 0 := by have := div_le_rhe A B; rw [h] at this; exact Nat.le_zero.1 this
+    rw [hq, Nat.mul_zero, Nat.zero_add] at h1
+    unfold rhe at h
+    simp only [hq] at h
+    split at h <;> omega
+  · intro h
+    have hq : A / B = 0 := Nat.div_eq_of_lt (by omega)
+    rw [hq, Nat.mul_zero, Nat.zero_add] at h1
+    unfold rhe
+    simp only
+    rw [hq, if_neg (by omega)]
+
+theorem rhe_le_of_lt_half {A B n : Nat} (hB : 0 < B) (h : 2*A < (2*n+1)*B) : rhe A B ≤ n := by
+  have h1 := Nat.div_add_mod A B
+  have h2 := Nat.mod_lt A hB
+  have e : (2*n+1)*B = 2*(B*n) + B := by ring
+  rw [e] at h
+  rcases Nat.lt_trichotomy (A / B) n with hlt | heq | hgt
+  · have := rhe_le_div_succ A B; omega
+  · unfold rhe
+    simp only
+    rw [heq] at h1 ⊢
+    rw [if_neg (by omega)]
+  · have hm := Nat.mul_le_mul_left B (show n + 1 ≤ A / B from hgt)
+    rw [Nat.mul_add] at hm
+    omega
+
+/-! ### Format facts and the thresholds to zero and to infinity -/
+
+/-- Ulp exponent of the top binade: `emax - mbits` (971 for f64, 104 for f32). -/
+def Fmt.kmax (f : Fmt) : Int := (2:Int)^(f.ebits-1) - 1 - f.mbits
+
+/-- The smallest value that rounds to infinity: `(2^(mbits+2) - 1) · 2^(kmax-1)`. -/
+def Fmt.infThreshold (f : Fmt) : Q := ofDyadic (2^(f.mbits+2) - 1) (f.kmax - 1)
+
+/-- Half the smallest subnormal: the largest value that rounds to zero. -/
+def Fmt.zeroThreshold (f : Fmt) : Q := ofDyadic 1 (f.kmin - 1)
+
+theorem fmt_facts (f : Fmt) (hE : 2 ≤ f.ebits) :
+    ∃ n : Nat, 1 ≤ n ∧ f.kmax - f.kmin = (n : Int) ∧ f.infBits = n * 2^f.mbits + 2 * 2^f.mbits := by
+  obtain ⟨e', he'⟩ : ∃ e', f.ebits = e' + 2 := ⟨f.ebits - 2, by omega⟩
+  have hP : 2 ≤ 2^(e'+1) := by
+    have := Nat.pow_le_pow_right (show 0 < 2 by decide) (show 1 ≤ e'+1 by omega)
+    omega
+  refine ⟨2 * 2^(e'+1) - 3, by omega, ?_, ?_⟩
+  · unfold Fmt.kmax Fmt.kmin
+    rw [he']
+    have : ((2:Int)^(e' + 2 - 1)) = ((2^(e'+1) : Nat) : Int) := by
+      push_cast; rfl
+    rw [this]
+    omega
+  · unfold Fmt.infBits
+    rw [he', ← Nat.add_mul]
+    congr 1
+    rw [show e' + 2 = (e'+1) + 1 from rfl, Nat.pow_succ]
+    omega
+
+theorem infBits_pos (f : Fmt) (hE : 1 ≤ f.ebits) : 0 < f.infBits := by
+  unfold Fmt.infBits
+  apply Nat.mul_pos _ (Nat.pow_pos (by decide))
+  have := Nat.pow_le_pow_right (show 0 < 2 by decide) hE
+  omega
+
+/-- (6a) `rne` never exceeds the bit pattern of infinity. -/
+theorem rne_le_inf (f : Fmt) (v : Q) : rne f v ≤ f.infBits := by
+  by_cases hn : v.num = 0
+  · rw [rne_of_num_zero f hn]; exact Nat.zero_le _
+  · rw [rne_eq_min f hn]; exact Nat.min_le_right _ _
+
+theorem rneTrunc_le_inf (f : Fmt) (v : Q) : rneTrunc f v ≤ f.infBits := by
+  by_cases hn : v.num = 0
+  · rw [rneTrunc_of_num_zero f hn]; exact Nat.zero_le _
+  · rw [rneTrunc_of_num_ne f hn]; exact Nat.min_le_right _ _
+
+theorem scaled_cmp {A B : Nat} (hB : 0 < B) (c d : Nat) (hd : 0 < d) :
+    ((A:ℚ)/B ≤ (c:ℚ)/d ↔ d * A ≤ c * B) ∧ ((A:ℚ)/B < (c:ℚ)/d ↔ d * A < c * B) ∧
+    ((c:ℚ)/d ≤ (A:ℚ)/B ↔ c * B ≤ d * A) := by
+  have hB' : (0:ℚ) < B := by exact_mod_cast hB
+  have hd' : (0:ℚ) < d := by exact_mod_cast hd
+  refine ⟨?_, ?_, ?_⟩
+  · rw [div_le_div_iff₀ hB' hd', mul_comm]; exact_mod_cast Iff.rfl
+  · rw [div_lt_div_iff₀ hB' hd', mul_comm]; exact_mod_cast Iff.rfl
+  · rw [div_le_div_iff₀ hd' hB', mul_comm (A:ℚ)]; exact_mod_cast Iff.rfl
+
+/-- (6b) `rne f v = 0` exactly when `v ≤ 2^(kmin-1)` (half the least subnormal; the tie goes to
+    the even pattern 0). -/
+theorem rne_eq_zero_iff (f : Fmt) (hE : 1 ≤ f.ebits) {v : Q} (hv : 0 < v.den) :
+    rne f v = 0 ↔ Q.le v f.zeroThreshold := by
+  unfold Fmt.zeroThreshold
+  rw [Q.le_iff hv (ofDyadic_den_pos _ _), ofDyadic_toRat, Nat.cast_one, one_mul]
+  by_cases hn : v.num = 0
+  · rw [rne_of_num_zero f hn, (Q.num_eq_zero_iff hv).1 hn]
+    exact iff_of_true rfl (two_zpow_pos _).le
+  · have hinf := infBits_pos f hE
+    have hM : 0 < 2^f.mbits := Nat.pow_pos (by decide)
+    have hB := scaleP2_den_pos hv (ulpExp f v)
+    have hsc := scaleP2_rat hv (ulpExp f v)
+    obtain ⟨g1, g2⟩ := flog2_spec_rat (Nat.pos_of_ne_zero hn) hv
+    have hhalf : (2:ℚ)^(f.kmin - 1) = (2:ℚ)^f.kmin / 2 := by
+      rw [zpow_sub_one₀ (by norm_num)]; rfl
+    rw [rne_eq_min f hn]
+    constructor
+    · intro h
+      have hb : bitsU f v = 0 := by omega
+      unfold bitsU at hb
+      have hm : mant f v = 0 := by omega
+      have hk : (ulpExp f v - f.kmin).toNat = 0 := by
+        rcases Nat.eq_zero_or_pos (ulpExp f v - f.kmin).toNat with h0 | h0
+        · exact h0
+        · have := Nat.mul_le_mul_right (2^f.mbits) h0; omega
+      have hk' : ulpExp f v = f.kmin := by have := kmin_le_ulpExp f v; omega
+      unfold mant at hm
+      rw [rhe_eq_zero_iff _ hB] at hm
+      have := ((scaled_cmp (A := (scaleP2 v (ulpExp f v)).1) hB 1 2 (by decide)).1).2 (by omega)
+      rw [hsc, hk', div_le_iff₀ (two_zpow_pos _)] at this
+      rw [hhalf]; push_cast at this; linarith
+    · intro h
+      have hlt : v.toRat < (2:ℚ)^(f.kmin - 1 + 1) := by
+        rw [zpow_add_one₀ (by norm_num)]
+        have := two_zpow_pos (f.kmin - 1)
+        linarith
+      have he := two_zpow_lt_imp g1 hlt
+      have hk' : ulpExp f v = f.kmin := by unfold ulpExp; omega
+      have hq : ((scaleP2 v (ulpExp f v)).1 : ℚ) / (scaleP2 v (ulpExp f v)).2 ≤ ((1:Nat):ℚ)/((2:Nat):ℚ) := by
+        rw [hsc, hk', div_le_iff₀ (two_zpow_pos _)]
+        rw [hhalf] at h; push_cast; linarith
+      have := ((scaled_cmp hB 1 2 (by decide)).1).1 hq
+      have hm : mant f v = 0 := by
+        unfold mant; exact (rhe_eq_zero_iff (scaleP2 v (ulpExp f v)).1 hB).2 (by omega)
+      unfold bitsU
+      rw [hm, hk']
+      simp
+
+theorem infThreshold_den_pos (f : Fmt) : 0 < f.infThreshold.den := ofDyadic_den_pos _ _
+
+theorem infThreshold_facts (f : Fmt) :
+    ∃ c : Nat, 2 * 2^f.mbits ≤ c ∧ c + 1 = 4 * 2^f.mbits ∧
+      f.infThreshold.toRat = (c:ℚ) * (2:ℚ)^(f.kmax - 1) ∧
+      f.infThreshold.toRat / (2:ℚ)^f.kmax = (c:ℚ) / ((2:Nat):ℚ) ∧
+      (2:ℚ)^(f.kmax + f.mbits) ≤ f.infThreshold.toRat ∧
+      f.infThreshold.toRat < (2:ℚ)^(f.kmax + f.mbits + 1) := by
+  have hM : 0 < 2^f.mbits := Nat.pow_pos (by decide)
+  have hc1 : 2 * 2^f.mbits ≤ 2^(f.mbits+2) - 1 := by rw [Nat.pow_succ, Nat.pow_succ]; omega
+  have hc2 : 2^(f.mbits+2) - 1 + 1 = 4 * 2^f.mbits := by rw [Nat.pow_succ, Nat.pow_succ]; omega
+  have hT : f.infThreshold.toRat = ((2^(f.mbits+2) - 1 : Nat):ℚ) * (2:ℚ)^(f.kmax - 1) :=
+    ofDyadic_toRat _ _
+  generalize 2^(f.mbits+2) - 1 = c at *
+  have hc1' : (2:ℚ) * (2:ℚ)^(f.mbits:ℤ) ≤ (c:ℚ) := by
+    rw [zpow_natCast]; exact_mod_cast hc1
+  have hc2' : (c:ℚ) < 4 * (2:ℚ)^(f.mbits:ℤ) := by
+    rw [zpow_natCast]
+    have : c < 4 * 2^f.mbits := by omega
+    exact_mod_cast this
+  have hp := two_zpow_pos (f.kmax - 1)
+  have e0 : (2:ℚ)^f.kmax = (2:ℚ)^(f.kmax - 1) * 2 := by
+    rw [← zpow_add_one₀ (by norm_num)]; congr 1; ring
+  have e1 : (2:ℚ)^(f.kmax + f.mbits) = (2 * (2:ℚ)^(f.mbits:ℤ)) * (2:ℚ)^(f.kmax - 1) := by
+    rw [zpow_add₀ (by norm_num), e0]; ring
+  have e2 : (2:ℚ)^(f.kmax + f.mbits + 1) = (4 * (2:ℚ)^(f.mbits:ℤ)) * (2:ℚ)^(f.kmax - 1) := by
+    rw [zpow_add_one₀ (by norm_num), e1]; ring
+  refine ⟨c, hc1, hc2, hT, ?_, ?_, ?_⟩
+  · rw [hT, e0]; push_cast; field_simp
+  · rw [hT, e1]; exact mul_le_mul_of_nonneg_right hc1' hp.le
+  · rw [hT, e2]; exact mul_lt_mul_of_pos_right hc2' hp
+
+theorem rhe_top (M : Nat) {c : Nat} (hc : c + 1 = 4 * M) : rhe c 2 = 2 * M := by
+  unfold rhe
+  simp only
+  split <;> omega
+
+theorem bitsU_ge_inf (f : Fmt) (hE : 2 ≤ f.ebits) {v : Q} (hv : 0 < v.den) (hn : v.num ≠ 0)
+    (h : f.infThreshold.toRat ≤ v.toRat) : f.infBits ≤ bitsU f v := by
+  obtain ⟨n, hn1, hn2, hinf⟩ := fmt_facts f hE
+  obtain ⟨c, hc1, hc2, _, hT2, hT3, _⟩ := infThreshold_facts f
+  obtain ⟨_, g2⟩ := flog2_spec_rat (Nat.pos_of_ne_zero hn) hv
+  have hM : 0 < 2^f.mbits := Nat.pow_pos (by decide)
+  have he := two_zpow_lt_imp (le_trans hT3 h) g2
+  have hk : f.kmax ≤ ulpExp f v := by unfold ulpExp; omega
+  have hB := scaleP2_den_pos hv (ulpExp f v)
+  rw [hinf]
+  unfold bitsU
+  rcases Int.lt_or_eq_of_le hk with hlt | heq
+  · have h2 := le_mant f hv hn (by omega)
+    have h3 : n + 1 ≤ (ulpExp f v - f.kmin).toNat := by omega
+    have h4 := Nat.mul_le_mul_right (2^f.mbits) h3
+    rw [Nat.add_mul] at h4
+    omega
+  · have h3 : (ulpExp f v - f.kmin).toNat = n := by omega
+    rw [h3]
+    have h2 : 2 * 2^f.mbits ≤ mant f v := by
+      rw [← rhe_top _ hc2]
+      unfold mant
+      apply rhe_mono_rat (by decide) hB
+      rw [scaleP2_rat hv, ← heq, ← hT2]
+      exact div_le_div_of_nonneg_right h (two_zpow_pos _).le
+    omega
+
+theorem bitsU_lt_inf (f : Fmt) (hE : 2 ≤ f.ebits) {v : Q} (hv : 0 < v.den) (hn : v.num ≠ 0)
+    (h : v.toRat < f.infThreshold.toRat) : bitsU f v < f.infBits := by
+  obtain ⟨n, hn1, hn2, hinf⟩ := fmt_facts f hE
+  obtain ⟨c, hc1, hc2, _, hT2, _, hT4⟩ := infThreshold_facts f
+  obtain ⟨g1, _⟩ := flog2_spec_rat (Nat.pos_of_ne_zero hn) hv
+  have hM : 0 < 2^f.mbits := Nat.pow_pos (by decide)
+  have he := two_zpow_lt_imp g1 (lt_trans h hT4)
+  have hk : ulpExp f v ≤ f.kmax := by unfold ulpExp; omega
+  have hk0 := kmin_le_ulpExp f v
+  have hB := scaleP2_den_pos hv (ulpExp f v)
+  rw [hinf]
+  unfold bitsU
+  rcases Int.lt_or_eq_of_le hk with hlt | heq
+  · have h2 := mant_le f hv hn
+    have h3 : (ulpExp f v - f.kmin).toNat + 1 ≤ n := by omega
+    have h4 := Nat.mul_le_mul_right (2^f.mbits) h3
+    rw [Nat.add_mul, Nat.pow_succ] at *
+    omega
+  · have h3 : (ulpExp f v - f.kmin).toNat = n := by omega
+    rw [h3]
+    have h2 : mant f v ≤ 2 * 2^f.mbits - 1 := by
+      unfold mant
+      apply rhe_le_of_lt_half hB
+      have hq : ((scaleP2 v (ulpExp f v)).1 : ℚ) / (scaleP2 v (ulpExp f v)).2 < (c:ℚ)/((2:Nat):ℚ) := by
+        rw [scaleP2_rat hv, heq, ← hT2]
+        exact div_lt_div_of_pos_right h (two_zpow_pos _)
+      have := ((scaled_cmp (A := (scaleP2 v (ulpExp f v)).1) hB c 2 (by decide)).2.1).1 hq
+      have e : 2 * (2 * 2^f.mbits - 1) + 1 = c := by omega
+      rw [e]; exact this
+    omega
+
+/-- (6c) `rne f v` is infinity exactly when `v ≥ (2^(mbits+2) - 1) · 2^(emax - mbits - 1)`
+    (the midpoint between the largest finite float and `2^(emax+1)`; the tie goes to infinity). -/
+theorem rne_eq_inf_iff (f : Fmt) (hE : 2 ≤ f.ebits) {v : Q} (hv : 0 < v.den) :
+    rne f v = f.infBits ↔ Q.le f.infThreshold v := by
+  rw [Q.le_iff (infThreshold_den_pos f) hv]
+  have hinf := infBits_pos f (by omega)
+  by_cases hn : v.num = 0
+  · rw [rne_of_num_zero f hn, (Q.num_eq_zero_iff hv).1 hn]
+    obtain ⟨c, hc1, hc2, _, _, hT3, _⟩ := infThreshold_facts f
+    have := lt_of_lt_of_le (two_zpow_pos _) hT3
+    constructor
+    · intro h; omega
+    · intro h; linarith
+  · rw [rne_eq_min f hn]
+    constructor
+    · intro h
+      by_contra hlt
+      have := bitsU_lt_inf f hE hv hn (not_le.1 hlt)
+      omega
+    · intro h
+      have := bitsU_ge_inf f hE hv hn h
+      omega
+
+/-! ### `rne` versus `rneTrunc`: the rounding decision at the midpoint -/
+
+theorem decode_encode (f : Fmt) {q : Nat} {k : Int} (hk : f.kmin ≤ k) (hq : q < 2^(f.mbits+1))
+    (hc : k = f.kmin ∨ 2^f.mbits ≤ q) :
+    decode f (q + (k - f.kmin).toNat * 2^f.mbits) = (q, k) := by
+  have hM : 0 < 2^f.mbits := Nat.pow_pos (by decide)
+  rw [Nat.pow_succ] at hq
+  unfold decode
+  simp only
+  generalize hj : (k - f.kmin).toNat = j
+  generalize 2^f.mbits = M at *
+  rcases Nat.lt_or_ge q M with hlt | hge
+  · have hj0 : j = 0 := by omega
+    subst hj0
+    rw [Nat.zero_mul, Nat.add_zero, Nat.div_eq_of_lt hlt, Nat.mod_eq_of_lt hlt, if_pos rfl]
+    congr 1; omega
+  · have e : q + j * M = (q - M) + (j + 1) * M := by rw [Nat.add_mul]; omega
+    rw [e, Nat.add_mul_div_right _ _ hM, Nat.add_mul_mod_self_right,
+      Nat.div_eq_of_lt (by omega), Nat.mod_eq_of_lt (by omega), if_neg (by omega)]
+    congr 1
+    · omega
+    · omega
+
+theorem nat_div_lt_of_rat {A B n : Nat} (hB : 0 < B) (h : (A:ℚ)/B < n) : A / B < n := by
+  rw [Nat.div_lt_iff_lt_mul hB]
+  rw [div_lt_iff₀ (by exact_mod_cast hB)] at h
+  exact_mod_cast h
+
+theorem le_nat_div_of_rat {A B n : Nat} (hB : 0 < B) (h : (n:ℚ) ≤ (A:ℚ)/B) : n ≤ A / B := by
+  rw [Nat.le_div_iff_mul_le hB]
+  rw [le_div_iff₀ (by exact_mod_cast hB)] at h
+  exact_mod_cast h
+
+/-- The truncated significand of `v` at its ulp exponent. -/
+def mantT (f : Fmt) (v : Q) : Nat := (scaleP2 v (ulpExp f v)).1 / (scaleP2 v (ulpExp f v)).2
+
+theorem rneTrunc_eq_min (f : Fmt) {v : Q} (hn : v.num ≠ 0) :
+    rneTrunc f v = min (mantT f v + (ulpExp f v - f.kmin).toNat * 2^f.mbits) f.infBits :=
+  rneTrunc_of_num_ne f hn
+
+/-- A finite truncated result decodes to the truncated significand and the ulp exponent. -/
+theorem decode_rneTrunc (f : Fmt) {v : Q} (hv : 0 < v.den) (hn : v.num ≠ 0)
+    (hfin : rneTrunc f v < f.infBits) :
+    rneTrunc f v = mantT f v + (ulpExp f v - f.kmin).toNat * 2^f.mbits ∧
+    decode f (rneTrunc f v) = (mantT f v, ulpExp f v) := by
+  have hb : rneTrunc f v = mantT f v + (ulpExp f v - f.kmin).toNat * 2^f.mbits := by
+    rw [rneTrunc_eq_min f hn] at hfin ⊢; omega
+  refine ⟨hb, ?_⟩
+  rw [hb]
+  have hB := scaleP2_den_pos hv (ulpExp f v)
+  apply decode_encode f (kmin_le_ulpExp f v)
+  · apply nat_div_lt_of_rat hB
+    rw [scaleP2_rat hv]; exact scaled_lt f hv hn
+  · rcases Int.lt_or_eq_of_le (kmin_le_ulpExp f v) with hlt | heq
+    · right
+      apply le_nat_div_of_rat hB
+      rw [scaleP2_rat hv]; exact scaled_ge f hv hn hlt
+    · left; exact heq.symm
+
+theorem decode_zero (f : Fmt) : decode f 0 = (0, f.kmin) := by
+  unfold decode; simp
+
+/-- The midpoint between the float `bits` and its successor: `(2m+1)·2^(k-1)`. -/
+def midpoint (f : Fmt) (bits : Nat) : Q :=
+  ofDyadic (2 * (decode f bits).1 + 1) ((decode f bits).2 - 1)
+
+theorem midpoint_den_pos (f : Fmt) (bits : Nat) : 0 < (midpoint f bits).den := ofDyadic_den_pos _ _
+
+/-- (7) With `b = rneTrunc f v` finite and `(m, k) = decode f b`: `rne f v` is `b` below the
+    midpoint `(2m+1)·2^(k-1)`, `b+1` above it, and on the midpoint the one with even significand. -/
+theorem rne_between (f : Fmt) {v : Q} (hv : 0 < v.den) (hfin : rneTrunc f v < f.infBits) :
+    (Q.lt v (midpoint f (rneTrunc f v)) → rne f v = rneTrunc f v) ∧
+    (Q.lt (midpoint f (rneTrunc f v)) v → rne f v = rneTrunc f v + 1) ∧
+    (Q.eqv v (midpoint f (rneTrunc f v)) →
+      rne f v = if (decode f (rneTrunc f v)).1 % 2 = 0 then rneTrunc f v else rneTrunc f v + 1) := by
+  have hmd := midpoint_den_pos f (rneTrunc f v)
+  rw [Q.lt_iff hv hmd, Q.lt_iff hmd hv, Q.eqv_iff hv hmd]
+  unfold midpoint
+  rw [ofDyadic_toRat]
+  by_cases hn : v.num = 0
+  · rw [rneTrunc_of_num_zero f hn, rne_of_num_zero f hn, (Q.num_eq_zero_iff hv).1 hn, decode_zero]
+    have : (0:ℚ) < ((2 * 0 + 1 : Nat) : ℚ) * (2:ℚ)^(f.kmin - 1) := by
+      have := two_zpow_pos (f.kmin - 1); push_cast; linarith
+    refine ⟨fun _ => rfl, fun h => ?_, fun h => ?_⟩
+    · simp only at h; linarith
+    · simp only at h; linarith
+  · obtain ⟨hb, hd⟩ := decode_rneTrunc f hv hn hfin
+    rw [hd]
+    simp only
+    have hB := scaleP2_den_pos hv (ulpExp f v)
+    have hsc := scaleP2_rat hv (ulpExp f v)
+    have e0 : (2:ℚ)^(ulpExp f v - 1) = (2:ℚ)^(ulpExp f v) / 2 := by
+      rw [zpow_sub_one₀ (by norm_num)]; rfl
+    have hp := two_zpow_pos (ulpExp f v)
+    -- the three comparisons, transported to the scaled quotient
+    have key : ((2 * mantT f v + 1 : Nat) : ℚ) * (2:ℚ)^(ulpExp f v - 1)
+        = (((2 * mantT f v + 1 : Nat) : ℚ) / ((2:Nat):ℚ)) * (2:ℚ)^(ulpExp f v) := by
+      rw [e0]; push_cast; ring
+    have hx : v.toRat = (((scaleP2 v (ulpExp f v)).1 : ℚ) / (scaleP2 v (ulpExp f v)).2)
+        * (2:ℚ)^(ulpExp f v) := by
+      rw [hsc]; field_simp
+    rw [key, hx, mul_lt_mul_iff_left₀ hp, mul_lt_mul_iff_left₀ hp, mul_left_inj' hp.ne']
+    obtain ⟨c1, c2, c3⟩ := rhe_cases (scaleP2 v (ulpExp f v)).1 hB
+    obtain ⟨s1, s2, s3⟩ := scaled_cmp (A := (scaleP2 v (ulpExp f v)).1) hB (2 * mantT f v + 1) 2 (by decide)
+    have hr : rne f v = min (mant f v + (ulpExp f v - f.kmin).toNat * 2^f.mbits) f.infBits :=
+      rne_eq_min f hn
+    refine ⟨fun h => ?_, fun h => ?_, fun h => ?_⟩
+    · have h' := s2.1 h
+      have hm : mant f v = mantT f v := c1 (by unfold mantT at h'; omega)
+      rw [hr, hm]; omega
+    · have h1 := not_le.2 h
+      rw [s1] at h1
+      have hm : mant f v = mantT f v + 1 := c2 (by unfold mantT at h1; omega)
+      rw [hr, hm]; omega
+    · have h1 := s1.1 h.le
+      have h2 := s3.1 h.ge
+      have hm := c3 (by unfold mantT at h1 h2; omega)
+      rw [hr]
+      show min (mant f v + _) _ = _
+      unfold mant
+      rw [hm]
+      show _ = if mantT f v % 2 = 0 then _ else _
+      unfold mantT at *
+      split <;> omega
+
+/-- (7') `rne` is the truncated float or its successor. -/
+theorem rne_trunc_or_succ (f : Fmt) (v : Q) (hfin : rneTrunc f v < f.infBits) :
+    rne f v = rneTrunc f v ∨ rne f v = rneTrunc f v + 1 := by
+  by_cases hn : v.num = 0
+  · left; rw [rneTrunc_of_num_zero f hn, rne_of_num_zero f hn]
+  · have h1 := div_le_rhe (scaleP2 v (ulpExp f v)).1 (scaleP2 v (ulpExp f v)).2
+    have h2 := rhe_le_div_succ (scaleP2 v (ulpExp f v)).1 (scaleP2 v (ulpExp f v)).2
+    rw [rneTrunc_of_num_ne f hn] at hfin ⊢
+    rw [rne_of_num_ne f hn]
+    omega
+
+/-- When `mbits ≥ 1` the parity of the decoded significand is the parity of the bit pattern. -/
+theorem decode_parity (f : Fmt) (hM : 1 ≤ f.mbits) (bits : Nat) :
+    (decode f bits).1 % 2 = bits % 2 := by
+  obtain ⟨m', hm'⟩ : ∃ m', f.mbits = m' + 1 := ⟨f.mbits - 1, by omega⟩
+  have hd : 2 ∣ 2^f.mbits := by rw [hm', Nat.pow_succ]; exact Nat.dvd_mul_left _ _
+  have h := Nat.mod_mod_of_dvd bits hd
+  unfold decode
+  simp only
+  split
+  · exact h
+  · rw [Nat.add_mod, h, Nat.mod_eq_zero_of_dvd hd, Nat.zero_add, Nat.mod_mod]
+
+
+/-! ### `Q` order relations are the order of the denoted rationals -/
+
+theorem Q.eqv_symm {a b : Q} (h : Q.eqv a b) : Q.eqv b a := by
+  unfold Q.eqv at *; omega
+
+theorem Q.eqv_trans {a b c : Q} (ha : 0 < a.den) (hb : 0 < b.den) (hc : 0 < c.den)
+    (h1 : Q.eqv a b) (h2 : Q.eqv b c) : Q.eqv a c := by
+  rw [Q.eqv_iff ha hc, (Q.eqv_iff ha hb).1 h1, (Q.eqv_iff hb hc).1 h2]
+
+theorem Q.le_trans {a b c : Q} (ha : 0 < a.den) (hb : 0 < b.den) (hc : 0 < c.den)
+    (h1 : Q.le a b) (h2 : Q.le b c) : Q.le a c := by
+  rw [Q.le_iff ha hc]
+  exact _root_.le_trans ((Q.le_iff ha hb).1 h1) ((Q.le_iff hb hc).1 h2)
+
+theorem Q.le_of_eqv {a b : Q} (h : Q.eqv a b) : Q.le a b := by
+  unfold Q.eqv at h; unfold Q.le; omega
+
+theorem Q.le_total (a b : Q) : Q.le a b ∨ Q.le b a := by
+  unfold Q.le; omega
+
+theorem Q.lt_iff_not_le {a b : Q} : Q.lt a b ↔ ¬ Q.le b a := by
+  unfold Q.le Q.lt; omega
+
+/-! ### Order structure of the finite floats, floor property of `rneTrunc` -/
+
+/-- The truncated bit pattern before saturation. -/
+def truncU (f : Fmt) (v : Q) : Nat := mantT f v + (ulpExp f v - f.kmin).toNat * 2^f.mbits
+
+theorem rneTrunc_eq_min_truncU (f : Fmt) {v : Q} (hn : v.num ≠ 0) :
+    rneTrunc f v = min (truncU f v) f.infBits :=
+  rneTrunc_of_num_ne f hn
+
+theorem mantT_lt (f : Fmt) {v : Q} (hv : 0 < v.den) (hn : v.num ≠ 0) :
+    mantT f v < 2^(f.mbits+1) := by
+  apply nat_div_lt_of_rat (scaleP2_den_pos hv _)
+  rw [scaleP2_rat hv]; exact scaled_lt f hv hn
+
+theorem le_mantT (f : Fmt) {v : Q} (hv : 0 < v.den) (hn : v.num ≠ 0) (hk : f.kmin < ulpExp f v) :
+    2^f.mbits ≤ mantT f v := by
+  apply le_nat_div_of_rat (scaleP2_den_pos hv _)
+  rw [scaleP2_rat hv]; exact scaled_ge f hv hn hk
+
+theorem decode_truncU (f : Fmt) {v : Q} (hv : 0 < v.den) (hn : v.num ≠ 0) :
+    decode f (truncU f v) = (mantT f v, ulpExp f v) := by
+  apply decode_encode f (kmin_le_ulpExp f v) (mantT_lt f hv hn)
+  rcases Int.lt_or_eq_of_le (kmin_le_ulpExp f v) with hlt | heq
+  · right; exact le_mantT f hv hn hlt
+  · left; exact heq.symm
+
+/-- The value of the next bit pattern is one ulp above (also across binade boundaries and into
+    the pattern of infinity, which decodes to `2^(emax+1)`). -/
+theorem decodeQ_succ_toRat (f : Fmt) (b : Nat) :
+    (decodeQ f (b+1)).toRat = (((decode f b).1 + 1 : Nat) : ℚ) * (2:ℚ)^(decode f b).2 := by
+  obtain ⟨c1, c2, c3, c4, _⟩ := decode_canonical f b
+  rcases hd : decode f b with ⟨m, k⟩
+  simp only [hd] at c1 c2 c3 c4 ⊢
+  have hM : 0 < 2^f.mbits := Nat.pow_pos (by decide)
+  rw [Nat.pow_succ] at c2
+  rcases Nat.lt_or_ge (m + 1) (2^f.mbits * 2) with hlt | hge
+  · have hb : b + 1 = (m + 1) + (k - f.kmin).toNat * 2^f.mbits := by omega
+    have := decode_encode f (q := m + 1) c1 (by rw [Nat.pow_succ]; exact hlt) (by omega)
+    rw [decodeQ_toRat, hb, this]
+  · have hj : (k + 1 - f.kmin).toNat = (k - f.kmin).toNat + 1 := by omega
+    have hb : b + 1 = 2^f.mbits + (k + 1 - f.kmin).toNat * 2^f.mbits := by
+      rw [hj, Nat.add_mul]; omega
+    have := decode_encode f (q := 2^f.mbits) (k := k + 1) (by omega)
+      (by rw [Nat.pow_succ]; omega) (Or.inr (Nat.le_refl _))
+    rw [decodeQ_toRat, hb, this]
+    simp only
+    have hm : m + 1 = 2 * 2^f.mbits := by omega
+    rw [hm, zpow_add_one₀ (by norm_num)]
+    push_cast; ring
+
+theorem decodeQ_lt_succ (f : Fmt) (b : Nat) :
+    (decodeQ f b).toRat < (decodeQ f (b+1)).toRat := by
+  rw [decodeQ_succ_toRat, decodeQ_toRat]
+  apply mul_lt_mul_of_pos_right _ (two_zpow_pos _)
+  exact_mod_cast Nat.lt_succ_self _
+
+/-- Bit patterns order like the values they denote. -/
+theorem decodeQ_strictMono (f : Fmt) {a b : Nat} (h : a < b) :
+    (decodeQ f a).toRat < (decodeQ f b).toRat := by
+  induction b, h using Nat.le_induction with
+  | base => exact decodeQ_lt_succ f a
+  | succ n _ ih => exact lt_trans ih (decodeQ_lt_succ f n)
+
+theorem decodeQ_mono (f : Fmt) {a b : Nat} (h : a ≤ b) :
+    (decodeQ f a).toRat ≤ (decodeQ f b).toRat := by
+  rcases Nat.lt_or_eq_of_le h with h | h
+  · exact (decodeQ_strictMono f h).le
+  · rw [h]
+
+theorem decodeQ_lt_iff (f : Fmt) {a b : Nat} :
+    Q.lt (decodeQ f a) (decodeQ f b) ↔ a < b := by
+  rw [Q.lt_iff (decodeQ_den_pos f a) (decodeQ_den_pos f b)]
+  constructor
+  · intro h
+    by_contra hc
+    exact absurd (decodeQ_mono f (Nat.le_of_not_lt hc)) (not_le.2 h)
+  · exact decodeQ_strictMono f
+
+/-- Floor property before saturation: `truncU` is the float at or just below `v`. -/
+theorem truncU_floor (f : Fmt) {v : Q} (hv : 0 < v.den) (hn : v.num ≠ 0) :
+    (decodeQ f (truncU f v)).toRat ≤ v.toRat ∧ v.toRat < (decodeQ f (truncU f v + 1)).toRat := by
+  have hB := scaleP2_den_pos hv (ulpExp f v)
+  have hsc := scaleP2_rat hv (ulpExp f v)
+  have hp := two_zpow_pos (ulpExp f v)
+  rw [decodeQ_succ_toRat, decodeQ_toRat, decode_truncU f hv hn]
+  simp only
+  have hx : v.toRat = (((scaleP2 v (ulpExp f v)).1 : ℚ) / (scaleP2 v (ulpExp f v)).2)
+      * (2:ℚ)^(ulpExp f v) := by
+    rw [hsc]; field_simp
+  have h1 := Nat.div_add_mod (scaleP2 v (ulpExp f v)).1 (scaleP2 v (ulpExp f v)).2
+  have h2 := Nat.mod_lt (scaleP2 v (ulpExp f v)).1 hB
+  constructor
+  · rw [hx]
+    apply mul_le_mul_of_nonneg_right _ hp.le
+    rw [le_div_iff₀ (by exact_mod_cast hB)]
+    unfold mantT
+    have : (scaleP2 v (ulpExp f v)).1 / (scaleP2 v (ulpExp f v)).2 * (scaleP2 v (ulpExp f v)).2
+        ≤ (scaleP2 v (ulpExp f v)).1 := Nat.div_mul_le_self _ _
+    exact_mod_cast this
+  · conv_lhs => rw [hx]
+    apply mul_lt_mul_of_pos_right _ hp
+    rw [div_lt_iff₀ (by exact_mod_cast hB)]
+    unfold mantT
+    have : (scaleP2 v (ulpExp f v)).1
+        < ((scaleP2 v (ulpExp f v)).1 / (scaleP2 v (ulpExp f v)).2 + 1) * (scaleP2 v (ulpExp f v)).2 := by
+      rw [Nat.add_mul, Nat.mul_comm]; omega
+    exact_mod_cast this
+
+theorem decodeQ_zero_toRat (f : Fmt) : (decodeQ f 0).toRat = 0 := by
+  rw [decodeQ_toRat, decode_zero]; simp
+
+theorem truncU_lt_of_lt (f : Fmt) {v : Q} (hv : 0 < v.den) (hn : v.num ≠ 0) {b : Nat}
+    (h : v.toRat < (decodeQ f b).toRat) : truncU f v < b := by
+  by_contra hc
+  have := decodeQ_mono f (Nat.le_of_not_lt hc)
+  have := (truncU_floor f hv hn).1
+  linarith
+
+theorem le_truncU_of_le (f : Fmt) {v : Q} (hv : 0 < v.den) (hn : v.num ≠ 0) {b : Nat}
+    (h : (decodeQ f b).toRat ≤ v.toRat) : b ≤ truncU f v := by
+  by_contra hc
+  have : truncU f v + 1 ≤ b := by omega
+  have := decodeQ_mono f this
+  have := (truncU_floor f hv hn).2
+  linarith
+
+/-- A finite `rneTrunc f v` is the largest float not above `v`. -/
+theorem rneTrunc_floor (f : Fmt) {v : Q} (hv : 0 < v.den) (hfin : rneTrunc f v < f.infBits) :
+    Q.le (decodeQ f (rneTrunc f v)) v ∧ Q.lt v (decodeQ f (rneTrunc f v + 1)) := by
+  rw [Q.le_iff (decodeQ_den_pos _ _) hv, Q.lt_iff hv (decodeQ_den_pos _ _)]
+  by_cases hn : v.num = 0
+  · rw [rneTrunc_of_num_zero f hn, (Q.num_eq_zero_iff hv).1 hn]
+    have := decodeQ_lt_succ f 0
+    rw [decodeQ_zero_toRat] at this ⊢
+    exact ⟨le_refl _, this⟩
+  · have : rneTrunc f v = truncU f v := by
+      rw [rneTrunc_eq_min_truncU f hn] at hfin ⊢; omega
+    rw [this]; exact truncU_floor f hv hn
+
+/-- Criterion: `decodeQ bits ≤ v < decodeQ (bits+1)` pins down `rneTrunc f v = bits`. -/
+theorem rneTrunc_eq_of_between (f : Fmt) {v : Q} (hv : 0 < v.den) {bits : Nat}
+    (hb : bits < f.infBits) (h1 : Q.le (decodeQ f bits) v) (h2 : Q.lt v (decodeQ f (bits + 1))) :
+    rneTrunc f v = bits := by
+  rw [Q.le_iff (decodeQ_den_pos _ _) hv] at h1
+  rw [Q.lt_iff hv (decodeQ_den_pos _ _)] at h2
+  by_cases hn : v.num = 0
+  · rw [rneTrunc_of_num_zero f hn]
+    rw [(Q.num_eq_zero_iff hv).1 hn] at h1
+    by_contra hc
+    have := decodeQ_strictMono f (Nat.pos_of_ne_zero (Ne.symm hc))
+    rw [decodeQ_zero_toRat] at this
+    linarith
+  · have a1 := truncU_lt_of_lt f hv hn h2
+    have a2 := le_truncU_of_le f hv hn h1
+    rw [rneTrunc_eq_min_truncU f hn]; omega
+
+theorem rneTrunc_eq_iff (f : Fmt) {v : Q} (hv : 0 < v.den) {bits : Nat} (hb : bits < f.infBits) :
+    rneTrunc f v = bits ↔ Q.le (decodeQ f bits) v ∧ Q.lt v (decodeQ f (bits + 1)) := by
+  constructor
+  · intro h; subst h; exact rneTrunc_floor f hv hb
+  · intro h; exact rneTrunc_eq_of_between f hv hb h.1 h.2
+
+theorem rneTrunc_mono (f : Fmt) {a b : Q} (ha : 0 < a.den) (hb : 0 < b.den) (h : Q.le a b) :
+    rneTrunc f a ≤ rneTrunc f b := by
+  have hr := (Q.le_iff ha hb).1 h
+  by_cases hn : a.num = 0
+  · rw [rneTrunc_of_num_zero f hn]; exact Nat.zero_le _
+  · have hn' : b.num ≠ 0 := by
+      intro h0
+      have := Q.toRat_pos ha hn
+      rw [(Q.num_eq_zero_iff hb).1 h0] at hr
+      linarith
+    rw [rneTrunc_eq_min_truncU f hn, rneTrunc_eq_min_truncU f hn']
+    have : truncU f a ≤ truncU f b :=
+      le_truncU_of_le f hb hn' (le_trans (truncU_floor f ha hn).1 hr)
+    omega
+
+/-! ### Midpoints and the "nearest" characterisation -/
+
+theorem midpoint_toRat (f : Fmt) (b : Nat) :
+    (midpoint f b).toRat = ((decodeQ f b).toRat + (decodeQ f (b+1)).toRat) / 2 := by
+  unfold midpoint
+  rw [ofDyadic_toRat, decodeQ_succ_toRat, decodeQ_toRat, zpow_sub_one₀ (by norm_num)]
+  push_cast; ring
+
+theorem midpoint_between (f : Fmt) (b : Nat) :
+    (decodeQ f b).toRat < (midpoint f b).toRat ∧ (midpoint f b).toRat < (decodeQ f (b+1)).toRat := by
+  have := decodeQ_lt_succ f b
+  rw [midpoint_toRat]
+  constructor <;> linarith
+
+/-- Criterion for `rne`: if `decodeQ bits ≤ v < decodeQ (bits+1)` (bits finite) the result is
+    decided by the midpoint. -/
+theorem rne_of_between (f : Fmt) {v : Q} (hv : 0 < v.den) {bits : Nat}
+    (hb : bits < f.infBits) (h1 : Q.le (decodeQ f bits) v) (h2 : Q.lt v (decodeQ f (bits + 1))) :
+    (Q.lt v (midpoint f bits) → rne f v = bits) ∧
+    (Q.lt (midpoint f bits) v → rne f v = bits + 1) ∧
+    (Q.eqv v (midpoint f bits) → rne f v = if (decode f bits).1 % 2 = 0 then bits else bits + 1) := by
+  have ht := rneTrunc_eq_of_between f hv hb h1 h2
+  have := rne_between f hv (by rw [ht]; exact hb)
+  rw [ht] at this
+  exact this
+
+/-- Interval form of round-to-nearest: strictly between the two neighbouring midpoints of a
+    finite float `bits ≥ 1`, `rne` returns `bits`. -/
+theorem rne_eq_of_mid_lt_lt (f : Fmt) {v : Q} (hv : 0 < v.den) {bits : Nat} (h0 : 1 ≤ bits)
+    (hb : bits < f.infBits) (h1 : Q.lt (midpoint f (bits - 1)) v) (h2 : Q.lt v (midpoint f bits)) :
+    rne f v = bits := by
+  have h1' := (Q.lt_iff (midpoint_den_pos _ _) hv).1 h1
+  have h2' := (Q.lt_iff hv (midpoint_den_pos _ _)).1 h2
+  obtain ⟨m1, m2⟩ := midpoint_between f (bits - 1)
+  obtain ⟨m3, m4⟩ := midpoint_between f bits
+  have e : bits - 1 + 1 = bits := by omega
+  rw [e] at m2
+  rcases le_or_gt (decodeQ f bits).toRat v.toRat with hge | hlt
+  · exact (rne_of_between f hv hb ((Q.le_iff (decodeQ_den_pos _ _) hv).2 hge)
+      ((Q.lt_iff hv (decodeQ_den_pos _ _)).2 (lt_trans h2' m4))).1 h2
+  · have := (rne_of_between f hv (bits := bits - 1) (by omega)
+      ((Q.le_iff (decodeQ_den_pos _ _) hv).2 (le_of_lt (lt_trans m1 h1')))
+      ((Q.lt_iff hv (decodeQ_den_pos _ _)).2 (by rw [e]; exact hlt))).2.1 h1
+    rw [this, e]
+
+theorem rneTrunc_le_rne (f : Fmt) (v : Q) : rneTrunc f v ≤ rne f v := by
+  by_cases hn : v.num = 0
+  · rw [rneTrunc_of_num_zero f hn]; exact Nat.zero_le _
+  · have h1 := div_le_rhe (scaleP2 v (ulpExp f v)).1 (scaleP2 v (ulpExp f v)).2
+    rw [rneTrunc_of_num_ne f hn, rne_of_num_ne f hn]
+    omega
+
+/-- **The spec is round-to-nearest**: a finite `rne f v` is at least as close to `v` as the value
+    of any other bit pattern `b'` (for `b' = infBits` the decoded value is `2^(emax+1)`). -/
+theorem rne_nearest (f : Fmt) {v : Q} (hv : 0 < v.den) (hfin : rne f v < f.infBits) (b' : Nat) :
+    abs (v.toRat - (decodeQ f (rne f v)).toRat) ≤ abs (v.toRat - (decodeQ f b').toRat) := by
+  have htf : rneTrunc f v < f.infBits := lt_of_le_of_lt (rneTrunc_le_rne f v) hfin
+  obtain ⟨fl1, fl2⟩ := rneTrunc_floor f hv htf
+  rw [Q.le_iff (decodeQ_den_pos _ _) hv] at fl1
+  rw [Q.lt_iff hv (decodeQ_den_pos _ _)] at fl2
+  obtain ⟨b1, b2, b3⟩ := rne_between f hv htf
+  have hmd := midpoint_den_pos f (rneTrunc f v)
+  rw [Q.lt_iff hv hmd] at b1
+  rw [Q.lt_iff hmd hv] at b2
+  rw [Q.eqv_iff hv hmd] at b3
+  have hmid := midpoint_toRat f (rneTrunc f v)
+  have hb' : (decodeQ f b').toRat ≤ (decodeQ f (rneTrunc f v)).toRat ∨
+      (decodeQ f (rneTrunc f v + 1)).toRat ≤ (decodeQ f b').toRat := by
+    rcases Nat.lt_or_ge (rneTrunc f v) b' with h | h
+    · right; exact decodeQ_mono f h
+    · left; exact decodeQ_mono f h
+  have n1 := le_abs_self (v.toRat - (decodeQ f b').toRat)
+  have n2 := neg_le_abs (v.toRat - (decodeQ f b').toRat)
+  generalize (decodeQ f b').toRat = y at *
+  generalize (midpoint f (rneTrunc f v)).toRat = mid at *
+  -- the two candidate answers
+  have caseT : v.toRat ≤ mid → rne f v = rneTrunc f v →
+      abs (v.toRat - (decodeQ f (rne f v)).toRat) ≤ abs (v.toRat - y) := by
+    intro hle hr
+    rw [hr, abs_of_nonneg (by linarith)]
+    rcases hb' with h | h <;> linarith
+  have caseS : mid ≤ v.toRat → rne f v = rneTrunc f v + 1 →
+      abs (v.toRat - (decodeQ f (rne f v)).toRat) ≤ abs (v.toRat - y) := by
+    intro hle hr
+    rw [hr, abs_of_nonpos (by linarith)]
+    rcases hb' with h | h <;> linarith
+  rcases lt_trichotomy v.toRat mid with h | h | h
+  · exact caseT h.le (b1 h)
+  · have := b3 h
+    split at this
+    · exact caseT h.le this
+    · exact caseS h.ge this
+  · exact caseS h.le (b2 h)
 
 end MinLex
